@@ -34,6 +34,10 @@ BATCH_MOVE, SOLID, UNSOLID, OPEN_SOLID = 200, 202, 203, 204
 # failures every scheduler check reports: the log is not a run of the model / the run did not finish
 COMMON_KEYS = ("sched:hang", "sched:panic", "sched:crash", "sched:not-enabled", "sched:shape", "sched:monitor-crash",
                "sched:parse", "sched:unknown-packet", "sched:batch")
+# a stop request (StopForFork / Shutdown) made while a collection is in progress: owned by C14 (no lost request) and C16
+STOP_KEYS = ("sched:exit-during-gc", "sched:stop-request-lost", "sched:join-count", "sched:forkgc-vacuous")
+# callback points of one GC at which hx_gc's `forkgc` / `shutdowngc` make the request (rt.rs PT_*)
+STOP_POINTS = {0: "stop_all_mutators", 1: "scan_vm_specific_roots", 2: "process_weak_refs", 3: "resume_mutators"}
 M40 = 1 << 40
 
 
@@ -58,13 +62,14 @@ def regenerate_stages(fs="fs_main"):
 # ------------------------------------------------------------------------------------------------
 
 class Prog:
-    def __init__(self, name, plan, workers, lines, yseed=0, heap=64 << 20, tags=()):
+    def __init__(self, name, plan, workers, lines, yseed=0, heap=64 << 20, tags=(), watchdog=None):
         self.name, self.plan, self.workers, self.lines, self.yseed, self.heap = name, plan, workers, lines, yseed, heap
         self.tags = set(tags)
+        self.watchdog = watchdog          # seconds; None = $SCHED_WATCHDOG or 60
 
     def text(self):
         pre = [f"cfg plan {self.plan}", f"cfg heap {self.heap}", f"cfg workers {self.workers}",
-               f"cfg watchdog {os.environ.get('SCHED_WATCHDOG', '60')}",
+               f"cfg watchdog {os.environ.get('SCHED_WATCHDOG', str(self.watchdog or 60))}",
                "cfg events 1"]
         if self.yseed:
             pre.append(f"cfg yield {self.yseed}")
@@ -127,6 +132,63 @@ def body_storm(rng, plan, n_wide, fields, depth, gcs, mutators=1, eph=0, fork=Fa
             p("fork")
             p("events")
     return L
+
+
+def body_forkgc(rng, plan, points, mutators=2, eph=1, n_wide=1, fields=100, depth=100, end=None):
+    """A stop request made DURING a collection: `forkgc m exhaustive point` arms VerifVM so that the GC it triggers
+    calls `prepare_to_fork()` at callback `point` (STOP_POINTS), waits for the pause to end, joins the GC threads
+    (all must exit: watchdog otherwise) and calls `after_fork`.  One round per entry of `points`, interleaved with
+    plain GCs, plain `fork` cycles (request between collections) and allocation; the program ends with a GC (later
+    GCs complete) or with `end` = "shutdowngc" (Shutdown requested during the last GC) / "shutdown"."""
+    L = body_storm(rng, plan, n_wide=n_wide, fields=fields, depth=depth, gcs=0, mutators=mutators, eph=eph)
+    p = L.append
+    nid = [100000]
+
+    def garbage():
+        for m in range(mutators):
+            for _ in range(8):
+                nid[0] += 1
+                p(f"alloc {m} {nid[0]} 1 {rng.choice([16, 512, 4000])} 8 0 Default {rng.randrange(0, 8)}")
+    for r, pt in enumerate(points):
+        if r % 3 == 1:
+            p(f"gc 0 {r % 2}")
+            p("events")
+        p(f"forkgc 0 {1 if r % 2 == 0 else 0} {pt}")
+        p("events")
+        garbage()
+        if r % 3 == 2:
+            p("fork")
+            p("events")
+    p("gc 0 1")
+    p("events")
+    if end == "shutdowngc":
+        garbage()
+        p(f"shutdowngc 0 1 {points[-1] if points else 0}")
+    elif end == "shutdown":
+        p("shutdown")
+    return L
+
+
+def forkgc_programs(rng, count, plans=None, prefix="g"):
+    """fork-during-GC programs: all plans, 1..16 workers, yield seeds armed in 2 of 3, every callback point."""
+    plans = plans or ALL_PLANS
+    progs = []
+    workers_pool = [4, 1, 2, 8, 3, 16]
+    for i in range(count):
+        plan = plans[i % len(plans)]
+        w = workers_pool[(i // 2 + i) % len(workers_pool)]
+        n_rounds = [2, 3, 4][i % 3]
+        # rotate through the points so that every program starts at a different one; 3 of 4 are inside the GC
+        points = [(i + k) % 4 for k in range(n_rounds)]
+        end = "shutdowngc" if i % 4 == 3 else ("shutdown" if i % 8 == 6 else None)
+        body = body_forkgc(rng, plan, points, mutators=rng.choice([1, 2, 3]), eph=i % 3, n_wide=rng.choice([1, 3]),
+                           fields=rng.choice([64, 400]), depth=rng.choice([50, 300]), end=end)
+        ys = 0 if i % 3 == 2 else rng.randrange(1, 1 << 30)
+        tags = {"forkgc"} | {f"forkgc-at:{STOP_POINTS[q]}" for q in points} | ({"shutdown"} if end else set())
+        # every op of these small programs takes milliseconds: a lost stop request shows after 25 s instead of 60 s
+        progs.append(Prog(f"{prefix}{i}-{plan}-w{w}-pt{''.join(map(str, points))}{'-sd' if end else ''}", plan, w, body,
+                          yseed=ys, tags=tags, watchdog=25))
+    return progs
 
 
 def gen_programs(rng, tier, want_fork=False, plans=None, count=None):
@@ -462,6 +524,7 @@ def oracle(evs, rc, lines, stages, fwd_after_liveness):
     resumes_total = 0
     weak_rounds, fwd_calls = [], 0
     exits, surrenders = defaultdict(int), defaultdict(int)
+    gc_goal, stop_pending = False, []          # a Gc goal is current; stop requests not yet served [(goal, during_gc)]
     sched_pending = set()
     stage_of = {}
     origin = defaultdict(list)
@@ -593,8 +656,26 @@ def oracle(evs, rc, lines, stages, fwd_after_liveness):
             block.pop(a, None)
         elif k == K["BucketPollOk"] and False:
             pass
+        elif k == K["GoalStarted"]:
+            if a == 0:
+                gc_goal = True
+            elif gc_goal:
+                out.append(("sched:exit-during-gc", f"exit goal {a} started while the Gc goal is current"))
+        elif k == K["GoalCompleted"] and a == 0:
+            gc_goal = False
+        elif k == K["StopRequest"]:
+            stop_pending.append((a, gc_goal))
+        elif k == K["MonAllExited"]:
+            if not stop_pending:
+                out.append(("sched:stop-request-lost", f"all workers exited for goal {a} without a stop request"))
+            stop_pending = stop_pending[1:]
         elif k == K["MonExit"]:
             exits[a] += 1
+            # the GC in progress completes first: nobody leaves its loop while the Gc goal is current
+            if gc_goal:
+                out.append(("sched:exit-during-gc", f"worker {a} exits (goal {b}) while the Gc goal is current"))
+            if not stop_pending:
+                out.append(("sched:stop-request-lost", f"worker {a} exits (goal {b}) although no stop request is outstanding"))
         elif k == K["SurrenderDone"]:
             surrenders[a] += 1
         elif k == K["Respawn"]:
@@ -606,6 +687,20 @@ def oracle(evs, rc, lines, stages, fwd_after_liveness):
             exits.clear(); surrenders.clear()
         if k == K["PacketStart"] and not gc_stopped:
             pass
+    if rc == 0:
+        # every stop request was served: hx_gc's `fork` / `forkgc` / `shutdown*` returned, i.e. the GC threads were joined
+        if stop_pending:
+            out.append(("sched:stop-request-lost", f"{len(stop_pending)} stop request(s) (goal {stop_pending[0][0]}, made "
+                        f"{'during' if stop_pending[0][1] else 'outside'} a GC) never served: not all workers exited"))
+        # Shutdown is not followed by a respawn: the exactly-once count is taken at the end of the log
+        if exits or surrenders:
+            for x in workers:
+                if exits[x] != 1 or surrenders[x] != 1:
+                    out.append(("sched:exit-not-once", f"worker {x}: {exits[x]} exits, {surrenders[x]} surrenders after the last stop request"))
+        for l in lines:
+            mj = re.search(r"# joined (\d+)", l)
+            if mj and l.startswith("ok") and int(mj.group(1)) != len(workers):
+                out.append(("sched:join-count", f"`{l}`: joined {mj.group(1)} GC threads, {len(workers)} workers exist"))
     # stop-before-trace: a packet polled from a stop-the-world bucket while mutators are not stopped
     stopped = False
     for (seq, tid, k, a, b) in evs:
@@ -621,6 +716,23 @@ def oracle(evs, rc, lines, stages, fwd_after_liveness):
             seen.add(key)
             res.append((key, what))
     return res
+
+
+def stop_request_stats(evs):
+    """how many stop requests the log contains, and how many of them were made while a Gc goal was current"""
+    st = defaultdict(int)
+    gc_goal = False
+    for (seq, tid, k, a, b) in evs:
+        if k == K["GoalStarted"] and a == 0:
+            gc_goal = True
+        elif k == K["GoalCompleted"] and a == 0:
+            gc_goal = False
+        elif k == K["StopRequest"]:
+            st["total"] += 1
+            st["goal:" + ("StopForFork" if a == 2 else "Shutdown")] += 1
+            st["while_gc_goal_current" if gc_goal else "no_gc_goal_current"] += 1
+            st["by_gc_worker" if tid >= 100 else "by_other_thread"] += 1
+    return st
 
 
 def never_run(evs, stages):
@@ -683,6 +795,7 @@ def run_all(progs, mut_open_plans=("ConcurrentImmix",), threads=6):
         r.toks = annotate(r.evs, p.workers)
         r.verdict, r.stats = lean_replay(model, r.toks, p.workers, p.plan in mut_open_plans)
         r.oracle = oracle(r.evs, r.rc, r.lines, stages, r.fwd)
+        r.stopstats = stop_request_stats(r.evs)
         miss = never_run(r.evs, stages) if r.rc == 0 else {}
         if miss:
             ky, n = next(iter(miss.items()))
@@ -779,24 +892,49 @@ def log_mutants(evs):
     if i is not None:
         j = max(k for k in range(i) if evs[k][2] == K["GcFinishedBegin"])
         out.append(("resume-before-closes", evs[:j + 1] + [evs[i]] + evs[j + 1:i] + evs[i + 1:]))
+    # the seeded regression of C14 / C16: at the end of a GC the last parker goes to sleep (ParkSelf) instead of
+    # responding to the stop request that arrived during the GC
+    for i, e in enumerate(evs):
+        if e[2] == K["GoalCompleted"] and e[3] == 0:
+            t = e[1]
+            js = [j for j in range(i + 1, min(len(evs), i + 400)) if evs[j][1] == t][:5]
+            if (len(js) == 5 and evs[js[0]][2] == K["GoalStarted"] and evs[js[0]][3] in (1, 2)
+                    and evs[js[1]][2] == K["MonLastParked"]):
+                seq, w, drop = evs[js[0]][0], t - 100, set(js)
+                out.append(("last-parker-sleeps-on-pending-stop-request",
+                            evs[:js[0]] + [(seq, t, K["MonLastParked"], w, 0), (seq, t, K["MonWait"], w, 0)]
+                            + [x for j, x in enumerate(evs[js[0]:], js[0]) if j not in drop]))
+                break
     return out
 
 
 def monitor_selftest(model, results):
     """The monitor must reject every corrupted log (otherwise it would be vacuous)."""
     stat, accepted = defaultdict(lambda: [0, 0]), []
-    done = 0
+    done, done_stop = 0, 0
+    STOPM = "last-parker-sleeps-on-pending-stop-request"
     for r in results:
-        if done >= 3 or not r.stats or r.prog.plan == "ConcurrentImmix":
+        if not r.stats or r.prog.plan == "ConcurrentImmix":
             continue
-        done += 1
+        full = done < 3
+        # beyond the first three logs: the stop-request mutant on up to three logs that contain a request during a GC
+        only_stop = (not full) and done_stop < 3 and r.stopstats.get("while_gc_goal_current", 0) > 0
+        if not (full or only_stop):
+            continue
+        done += 1 if full else 0
         for name, evs2 in log_mutants(r.evs):
+            if only_stop and name != STOPM:
+                continue
+            if name == STOPM:
+                done_stop += 1
             v, st = lean_replay(model, annotate(evs2, r.prog.workers), r.prog.workers, False)
             stat[name][0] += 1
             if v.startswith("viol"):
                 stat[name][1] += 1
             else:
                 accepted.append(f"{name} on {r.prog.name}")
+        if not full:
+            continue
         v, st = lean_replay(model, [("garbage",)], r.prog.workers, False)
         stat["malformed-token"][0] += 1
         stat["malformed-token"][1] += 1 if v.startswith("viol") else 0
@@ -830,8 +968,14 @@ def run_check(pid, modules, theorems, keys, build_programs, argv, meta, want_for
     agg = defaultdict(int)
     samples = []
     other = defaultdict(int)
+    stop_agg = defaultdict(int)
     for r in results:
         p = r.prog
+        for k2, v in r.stopstats.items():
+            stop_agg[k2] += v
+        if "forkgc" in p.tags:
+            stop_agg["forkgc_programs"] += 1
+            stop_agg["forkgc_programs_with_request_during_gc"] += 1 if r.stopstats.get("while_gc_goal_current") else 0
         dist["plan:" + p.plan] += 1
         dist[f"workers:{p.workers}"] += 1
         dist["yield:" + ("armed" if p.yseed else "off")] += 1
@@ -870,6 +1014,12 @@ def run_check(pid, modules, theorems, keys, build_programs, argv, meta, want_for
     if extra is not None:
         ev, extra_cov = extra(rng, a.tier)
         violations += ev
+    if stop_agg.get("forkgc_programs") and "sched:forkgc-vacuous" in keys and not any(v.found_input for v in violations) \
+            and stop_agg["forkgc_programs_with_request_during_gc"] * 2 < stop_agg["forkgc_programs"]:
+        violations.append(Violation("sched:forkgc-vacuous",
+                                    f"only {stop_agg['forkgc_programs_with_request_during_gc']} of {stop_agg['forkgc_programs']} "
+                                    "`forkgc` programs made their stop request while a Gc goal was current",
+                                    None, None, None, False, broken="hx_gc `forkgc` (request during a collection)"))
     selftest, accepted = monitor_selftest(E.model_exe(), results)
     if accepted:
         violations.append(Violation("sched:monitor-accepts-corrupted-log",
@@ -889,6 +1039,7 @@ def run_check(pid, modules, theorems, keys, build_programs, argv, meta, want_for
         "samples": samples, "traces_validated_against_impl": n_ok, "gcs_replayed": gcs, "events_replayed": total_events,
         "monitor_totals": dict(agg), "distribution": dict(dist), "harness_build_s": builds, "lean_s": lean.get("lean_s"),
         "failures_owned_by_other_sched_properties": dict(other),
+        "stop_requests": dict(stop_agg),
         "monitor_selftest_corrupted_logs": selftest, **extra_cov,
     }
     return E.finish(pid, a.tier, a.seed, t0, lean, corr, violations, level="proof of the model; partial w.r.t. the code",
